@@ -763,4 +763,109 @@ example : lookup (chainCtx ([["T", "start"], ["R"], ["start", "R", "S"]].drop 2)
 
 end C13
 
+/-! ## C17 – semantically transparent wrappers, to any depth -/
+
+/-- `k` layers of `[ · ]` -/
+def wrapSeq : Nat → Expr → Expr
+  | 0, e => e
+  | k + 1, e => .seq [wrapSeq k e]
+
+def wrapSeqVal : Nat → Val → Val
+  | 0, v => v
+  | k + 1, v => .list [wrapSeqVal k v]
+
+/-- `k` layers of `( · )?` and of `Fail() | ·` -/
+def wrapOpt : Nat → Expr → Expr
+  | 0, e => e
+  | k + 1, e => .opt (wrapOpt k e)
+
+def wrapAlt : Nat → Expr → Expr
+  | 0, e => e
+  | k + 1, e => .choice [.fail, wrapAlt k e]
+
+/-- **C17.**  Wrapping an expression in `k` nested sequences yields the `k`-fold wrapped value,
+    for every `k` (specification; the code model follows by C01, whatever helper functions the
+    generator splits the code into being outside this model) -/
+theorem C17_nested_sequences (P : Program) (inp : List Nat) (e : Expr) (p : Nat) (v : Val) (p' : Nat) :
+    ∀ (k fuel : Nat), peg P inp fuel e p = some (.ok v p') →
+      peg P inp (fuel + k) (wrapSeq k e) p = some (.ok (wrapSeqVal k v) p') := by
+  intro k
+  induction k with
+  | zero => intro fuel h; simpa [wrapSeq, wrapSeqVal] using h
+  | succ k ih =>
+    intro fuel h
+    have := ih fuel h
+    rw [show fuel + (k + 1) = (fuel + k) + 1 by omega]
+    simp [wrapSeq, wrapSeqVal, peg, pegSeq, this]
+
+theorem C17_nested_options (P : Program) (inp : List Nat) (e : Expr) (p : Nat) (v : Val) (p' : Nat) :
+    ∀ (k fuel : Nat), peg P inp fuel e p = some (.ok v p') →
+      peg P inp (fuel + k) (wrapOpt k e) p = some (.ok v p') := by
+  intro k
+  induction k with
+  | zero => intro fuel h; simpa [wrapOpt] using h
+  | succ k ih =>
+    intro fuel h
+    have := ih fuel h
+    rw [show fuel + (k + 1) = (fuel + k) + 1 by omega]
+    simp [wrapOpt, peg, this]
+
+theorem C17_nested_failing_choices (P : Program) (inp : List Nat) (e : Expr) (p : Nat) (v : Val) (p' : Nat) :
+    ∀ (k fuel : Nat), peg P inp fuel e p = some (.ok v p') →
+      peg P inp (fuel + k) (wrapAlt k e) p = some (.ok v p') := by
+  intro k
+  induction k with
+  | zero => intro fuel h; simpa [wrapAlt] using h
+  | succ k ih =>
+    intro fuel h
+    have := ih fuel h
+    have hpos : ∃ m, fuel + k = m + 1 := by
+      cases fuel with
+      | zero => simp [peg] at h
+      | succ f => exact ⟨f + k, by omega⟩
+    obtain ⟨m, hm⟩ := hpos
+    rw [show fuel + (k + 1) = (fuel + k) + 1 by omega]
+    have hfail : peg P inp (fuel + k) .fail p = some .fail := by rw [hm]; simp [peg]
+    simp [wrapAlt, peg, pegChoice, hfail, this]
+
+-- non-vacuity
+example : peg exP [97] 6 (wrapSeq 3 (.str [97] false)) 0 = some (.ok (wrapSeqVal 3 (.str [97])) 1) := by rfl
+
+/-! ## C18 – parse calls are isolated from each other -/
+
+section C18
+open Run
+variable {K R : Type} [DecidableEq K]
+
+/-- two parses in flight, each with its own per-call state (`memo`, `stack`, pending result):
+    a schedule says which of them takes the next step of its `while stack:` loop -/
+def interleave (bodyA bodyB : K → Prog K R) : List Bool → State K R × State K R → State K R × State K R
+  | [], s => s
+  | true :: sched, (a, b) => interleave bodyA bodyB sched (steps bodyA 1 a, b)
+  | false :: sched, (a, b) => interleave bodyA bodyB sched (a, steps bodyB 1 b)
+
+/-- **C18.**  Under any interleaving, each parse ends up exactly where it would running alone
+    for the same number of steps: no step of one call can influence the other, because all
+    state a step reads or writes belongs to the call. -/
+theorem C18_interleaving (bodyA bodyB : K → Prog K R) (sched : List Bool) (a b : State K R) :
+    interleave bodyA bodyB sched (a, b) =
+      (steps bodyA (sched.count true) a, steps bodyB (sched.count false) b) := by
+  induction sched generalizing a b with
+  | nil => simp [interleave, steps]
+  | cons x xs ih =>
+    have hone : ∀ (body : K → Prog K R) (n : Nat) (s : State K R),
+        steps body (n + 1) s = steps body n (steps body 1 s) := by
+      intro body n s; rw [Nat.add_comm, steps_add]
+    cases x
+    · have h1 : List.count true (false :: xs) = List.count true xs := by simp
+      have h2 : List.count false (false :: xs) = List.count false xs + 1 := by simp
+      rw [h1, h2, hone]
+      simp only [interleave, ih]
+    · have h1 : List.count true (true :: xs) = List.count true xs + 1 := by simp
+      have h2 : List.count false (true :: xs) = List.count false xs := by simp
+      rw [h1, h2, hone]
+      simp only [interleave, ih]
+
+end C18
+
 end Sourcer
